@@ -41,7 +41,7 @@ m("C05", "C05-panic-mode-not-restored", "R05-restore:(*LState).PCall$1:Panic=old
 m("C05", "C05-outer-arm-no-settop", "R05-restore:(*LState).PCall$1:reg.SetTop(base)", ("state.go", "\t\t\tls.closeUpvalues(base)\n\t\t\tls.reg.SetTop(base)\n\t\t}\n\t\tls.stack.SetSp(sp)", "\t\t\tls.closeUpvalues(base)\n\t\t\tif errfunc == nil {\n\t\t\t\tls.reg.SetTop(base)\n\t\t\t}\n\t\t}\n\t\tls.stack.SetSp(sp)"))
 m("C05", "C05-dostring-unprotected", "R05-convert:(*LState).DoString:via-PCall", ("auxlib.go", "\t\tls.Push(fn)\n\t\treturn ls.PCall(0, MultRet, nil)\n\t}\n}\n\n/* }}} */\n\n/* GopherLua original APIs {{{ */", "\t\tls.Push(fn)\n\t\tls.Call(0, MultRet)\n\t\treturn nil\n\t}\n}\n\n/* }}} */\n\n/* GopherLua original APIs {{{ */"))
 # ---- C06
-m("C06", "C06-resume-dead-check-dropped", "R06-guard:coResume:not-dead", ("coroutinelib.go", "\tif th.Dead {\n\t\tmsg := \"can not resume a dead thread\"\n\t\tif th.wrapped {\n\t\t\tL.RaiseError(msg)\n\t\t\treturn 0\n\t\t}\n\t\tL.Push(LFalse)\n\t\tL.Push(LString(msg))\n\t\treturn 2\n\t}\n", ""))
+m("C06", "C06-resume-dead-check-dropped", "R06-guard:resumeThread:not-dead", ("coroutinelib.go", "\tif th.Dead {\n\t\tmsg := \"can not resume a dead thread\"\n\t\tif wrapped {\n\t\t\tL.RaiseError(msg)\n\t\t\treturn 0\n\t\t}\n\t\tL.Push(LFalse)\n\t\tL.Push(LString(msg))\n\t\treturn 2\n\t}\n", ""))
 m("C06", "C06-wrapped-arm-no-release", "R06-release:threadRun$1", ("vm.go", "\t\t\t\t\tL.G.CurrentThread = parent\n\t\t\t\t\tL.Parent = nil\n\t\t\t\t\tL.kill()\n", ""))
 m("C06", "C06-return-does-not-kill", "R06-killarg:handler[OP_RETURN]:switch", ("vm.go", "\t\t\t\tswitchToParentThread(L, n, false, true)\n\t\t\t\treturn 1", "\t\t\t\tswitchToParentThread(L, n, false, false)\n\t\t\t\treturn 1"))
 # ---- C07
@@ -206,13 +206,13 @@ m("C15", "C15-format-string-number-inverted", "R16-errsense:(LString).Format", (
 m("C16", "C16-tonumber-ignores-error", "R16-errsense:LVAsNumber", ("value.go", "\t\tif num, err := parseNumber(string(lv)); err == nil {\n\t\t\treturn num\n\t\t}", "\t\tnum, _ := parseNumber(string(lv))\n\t\treturn num"))
 
 m("C02", "C02-yield-in-tail-position-removes-caller", "R02-tailframe:callGFunction:yield-in-tail-position-keeps-caller", ("vm.go", "\tif tailcall && gfnret < 0 {\n\t\t// a host function that yields is not tail called after all: the caller's frame stays, the values of\n\t\t// the next resume land where the call was made and the RETURN that follows the TAILCALL hands them on\n\t\tframe.ReturnBase = frame.Base\n\t\tframe.NRet = MultRet\n\t\ttailcall = false\n\t}\n", ""))
-m("C06", "C06-coresume-no-padding", "R06-resumeapi:coResume:pads-resume-values", ("coroutinelib.go", "\t\tth.padResumeValues(nargs)\n", ""))
+m("C06", "C06-coresume-no-padding", "R06-resumeapi:resumeThread:pads-resume-values", ("coroutinelib.go", "\t\tth.padResumeValues(nargs)\n", ""))
 m("C06", "C06-resume-api-no-padding", "R06-resumeapi:(*LState).Resume:pads-resume-values", ("state.go", "\t\tth.padResumeValues(len(args))\n", ""))
 
-m("C06", "C06-coresume-normal-not-refused", "R06-guard:coResume:not-normal", ("coroutinelib.go", "\tif L.Status(th) == \"normal\" {\n\t\t// it is waiting for the thread it resumed (an ancestor of the running one)\n", "\tif L.Status(th) == \"normal\" && th.wrapped {\n\t\t// it is waiting for the thread it resumed (an ancestor of the running one)\n"))
+m("C06", "C06-coresume-normal-not-refused", "R06-guard:resumeThread:not-normal", ("coroutinelib.go", "\tif L.Status(th) == \"normal\" {\n\t\t// it is waiting for the thread it resumed (an ancestor of the running one)\n", "\tif L.Status(th) == \"normal\" && th.wrapped {\n\t\t// it is waiting for the thread it resumed (an ancestor of the running one)\n"))
 m("C06", "C06-status-direct-parent-only", "R06-guard:Status:normal-walks-resumer-chain", ("state.go", "\t\tfor p := ls.G.CurrentThread; p != nil; p = p.Parent {\n\t\t\tif p.Parent == th {\n\t\t\t\tstatus = \"normal\"\n\t\t\t\tbreak\n\t\t\t}\n\t\t}", "\t\tif ls.Parent == th {\n\t\t\tstatus = \"normal\"\n\t\t}"))
 
-m("C06", "C06-resume-nesting-unbounded", "R06-guard:coResume:nesting-bounded", ("coroutinelib.go", "\tif depth >= maxResumeDepth {\n\t\t// every nested resume runs on the Go stack of its resumer\n\t\tL.RaiseError(\"C stack overflow\")\n\t}\n", "\t_ = depth\n"))
+m("C06", "C06-resume-nesting-unbounded", "R06-guard:resumeThread:nesting-bounded", ("coroutinelib.go", "\tif depth >= maxResumeDepth {\n\t\t// every nested resume runs on the Go stack of its resumer\n\t\tL.RaiseError(\"C stack overflow\")\n\t}\n", "\t_ = depth\n"))
 
 m("C11", "C11-thread-context-from-creator", "R11-threadctx:NewThread:context-from-the-creators-base", ("state.go", "\t\tthread.ctx, f = context.WithCancel(base)", "\t\tthread.ctx, f = context.WithCancel(ls.ctx)"))
 m("C11", "C11-setcontext-keeps-old-base", "R11-threadctx:SetContext:attached-context-is-its-own-base", ("state.go", "\tls.ctx = ctx\n\tls.ctxParent = nil\n}", "\tls.ctx = ctx\n}"))
@@ -258,7 +258,7 @@ m("C13", "C13-random-from-process-wide-generator", "R13-globals:math/rand:proces
 
 m("C12", "C12-segment-index-16-bits", "R12-full:segIdx:wide-enough-for-any-CallStackSize", ("state.go", "type segIdx uint32", "type segIdx uint16"))
 
-m("C06", "C06-current-thread-set-before-argument-transfer", "R06-guard:coResume:becomes-current-after-the-last-raising-step", ("coroutinelib.go", "\tth.Parent = L\n\tL.G.CurrentThread = th\n\ttop := L.GetTop()", "\ttop := L.GetTop()"), ("coroutinelib.go", "\t// handing the arguments over and setting the first frame up can fail (registry overflow): the\n", "\tth.Parent = L\n\tL.G.CurrentThread = th\n\t// handing the arguments over and setting the first frame up can fail (registry overflow): the\n"))
+m("C06", "C06-current-thread-set-before-argument-transfer", "R06-guard:resumeThread:becomes-current-after-the-last-raising-step", ("coroutinelib.go", "\tth.Parent = L\n\tL.G.CurrentThread = th\n\ttop := L.GetTop()", "\ttop := L.GetTop()"), ("coroutinelib.go", "\t// handing the arguments over and setting the first frame up can fail (registry overflow): the\n", "\tth.Parent = L\n\tL.G.CurrentThread = th\n\t// handing the arguments over and setting the first frame up can fail (registry overflow): the\n"))
 
 m("C08", "C08-statement-nesting-unbounded", "R08-terminate:compile:recursion-depth-bounded", ("compile.go", "\tif context.exprDepth > maxExprDepth {\n\t\traiseCompileError(context, sline(stmt), \"chunk has too many syntax levels\")\n\t}\n", ""))
 m("C08", "C08-condition-nesting-unbounded", "R08-terminate:compile:recursion-depth-bounded", ("compile.go", "hasnextcond bool) { // {{{\n\tcontext.exprDepth++\n\tdefer leaveExpr(context)\n\tif context.exprDepth > maxExprDepth {\n\t\traiseCompileError(context, sline(expr), \"chunk has too many syntax levels\")\n\t}\n", "hasnextcond bool) { // {{{\n"))
@@ -290,5 +290,8 @@ m("C14", "C14-open-backref-not-marked", "R14-index:compilePattern:marks-referenc
 m("C14", "C14-open-backref-mark-ignored", "R14-index:recursiveVM:reference-to-open-capture-raises", ("pm/pm.go", "\t\tif idx >= m.CaptureLength()-1 || inst.Operand2 == 1 {", "\t\tif idx >= m.CaptureLength()-1 {"))
 
 m("C14", "C14-backref-guard-off-by-one-unmarked", "R14-index:recursiveVM:Capture#2", ("pm/pm.go", "\t\tif idx >= m.CaptureLength()-1 || inst.Operand2 == 1 {", "\t\tif idx >= m.CaptureLength() {"))
+
+m("C06", "C06-wrap-marks-the-thread", "R06-resumeapi:result-convention-written-outside-a-resume:coWrap", ("coroutinelib.go", "\tcoCreate(L)\n\tv := L.Get(L.GetTop())\n", "\tcoCreate(L)\n\tL.CheckThread(L.GetTop()).wrapped = true\n\tv := L.Get(L.GetTop())\n"), ("coroutinelib.go", "\tth.wrapped = wrapped\n", "\twrapped = th.wrapped\n"), ("coroutinelib.go", "\tth := L.CheckThread(1)\n\tif L.G.CurrentThread == th {", "\tth := L.CheckThread(1)\n\twrapped = th.wrapped\n\tif L.G.CurrentThread == th {"))
+m("C06", "C06-api-resume-keeps-old-convention", "R06-resumeapi:(*LState).Resume:sets-result-convention-for-this-resume#1", ("state.go", "\tth.wrapped = false // this resume expects the status in front of the values\n", ""))
 if __name__ == "__main__":
     main()
